@@ -691,16 +691,18 @@ theorem effectiveOti_spec (d : Oti) (a : ObjAttrs) (o : Oti) (h : effectiveOti d
                 · cases h
                 · split at h
                   · cases h
-                  · rename_i q _ _ _ hnb
-                    simp only [Except.ok.injEq, Option.some.injEq] at h
-                    right
-                    refine ⟨h61, max q.2.2.2 1, h.symm, ?_, ?_⟩
-                    · intro h6
-                      have := Nat.le_of_not_gt (fun hgt => hnb (.inl ⟨h6, hgt⟩))
-                      omega
-                    · intro h1
-                      have := Nat.le_of_not_gt (fun hgt => hnb (.inr ⟨h1, hgt⟩))
-                      omega
+                  · split at h
+                    · cases h
+                    · rename_i q _ _ _ _ hnb
+                      simp only [Except.ok.injEq, Option.some.injEq] at h
+                      right
+                      refine ⟨h61, max q.2.2.2 1, h.symm, ?_, ?_⟩
+                      · intro h6
+                        have := Nat.le_of_not_gt (fun hgt => hnb (.inl ⟨h6, hgt⟩))
+                        omega
+                      · intro h1
+                        have := Nat.le_of_not_gt (fun hgt => hnb (.inr ⟨h1, hgt⟩))
+                        omega
           · rename_i h61
             simp only [Except.ok.injEq, Option.some.injEq] at h
             left
